@@ -82,6 +82,11 @@ def piece_spec(fs, dim, ln, seed):
             v['seed'] = (v['seed'] + seed * (i + 1)) % (1 << 30)
             if v['kind'] != 'data':
                 v['kind'] = 'data'
+        elif (seed + i) % 2 == 0:
+            # variables WITHOUT the stacked dimension may differ between the
+            # files too (data and coordinate variables alike): the result
+            # must hold the first file's
+            v['seed'] = (v['seed'] + seed * (i + 3)) % (1 << 30)
     return ps
 
 
